@@ -146,6 +146,10 @@ def ExecOk (key : AnyClaim → η) (P : AnyClaim → Prop) (e : Exec) : Prop :=
 def Inv (key : AnyClaim → η) (P : AnyClaim → Prop) (s : AState η) : Prop :=
   (∀ a ∈ s.atts, AttOk key P a) ∧ (∀ e ∈ s.executed, ExecOk key P e)
 
+/-- what `ExecuteClaim` finds and what it has run was handed to the handler by an observed attestation of that nonce -/
+def PendInv (s : AState η) : Prop :=
+  (∀ p ∈ s.pending, p.2.nonce = p.1 ∧ ∃ e ∈ s.executed, e.claim = p.2) ∧ (∀ c ∈ s.ran, ∃ e ∈ s.executed, e.claim = c)
+
 theorem mem_setAtt {atts : List (Att η)} {a b : Att η} (h : b ∈ setAtt atts a) : b = a ∨ b ∈ atts := by
   simp only [setAtt, List.mem_cons, List.mem_filter] at h
   rcases h with h | h
@@ -226,6 +230,87 @@ theorem inv_step (key : AnyClaim → η) (P : AnyClaim → Prop) (s : AState η)
   | setExts xs => exact hs
   | setLastObserved n => exact hs
   | setOracleLast o n => cases n <;> exact hs
+  | execute n f =>
+    simp only [step, execute]
+    split
+    · exact hs
+    · split <;> exact hs
+
+theorem pendInv_applyVote (s : AState η) (a : Att η) (o : Nat) (c : AnyClaim) (obs : Bool) (hs : PendInv s) :
+    PendInv (applyVote s a o c obs) := by
+  unfold applyVote
+  split
+  · refine ⟨?_, ?_⟩
+    · intro p hp
+      simp only at hp
+      have old : p ∈ s.pending → p.2.nonce = p.1 ∧ ∃ e ∈ s.executed ++ [{ claim := c, tallied := a.votes }], e.claim = p.2 := by
+        intro h
+        obtain ⟨hn, e, he, hc⟩ := hs.1 p h
+        exact ⟨hn, e, List.mem_append_left _ he, hc⟩
+      split at hp
+      · simp only [setPending, List.mem_cons, List.mem_filter] at hp
+        rcases hp with rfl | hp
+        · exact ⟨rfl, _, List.mem_append_right _ (List.mem_singleton.mpr rfl), rfl⟩
+        · exact old hp.1
+      · exact old hp
+    · intro c' hc'
+      obtain ⟨e, he, hc⟩ := hs.2 c' hc'
+      exact ⟨e, List.mem_append_left _ he, hc⟩
+  · exact hs
+
+theorem pendInv_vote (key : AnyClaim → η) (s : AState η) (o : Nat) (c : AnyClaim) (hp : Bool) (hs : PendInv s) :
+    PendInv (vote key s o c hp).1 := by
+  unfold vote
+  split
+  · exact hs
+  split
+  · exact hs
+  split
+  · exact hs
+  · exact pendInv_applyVote s _ o c _ hs
+
+omit [DecidableEq η] in
+theorem pendInv_execute (s : AState η) (n : Nat) (f : Bool) (hs : PendInv s) : PendInv (execute s n f) := by
+  unfold execute
+  split
+  · exact hs
+  · rename_i c hl
+    split
+    · exact hs
+    · refine ⟨?_, ?_⟩
+      · intro p hp
+        simp only [List.mem_filter] at hp
+        exact hs.1 p hp.1
+      · intro c' hc'
+        simp only [List.mem_append, List.mem_singleton] at hc'
+        rcases hc' with hc' | rfl
+        · exact hs.2 c' hc'
+        · have hm : (n, c') ∈ s.pending := by
+            have := List.lookup_eq_some_iff.mp hl
+            obtain ⟨l₁, l₂, h, _⟩ := this
+            rw [h]
+            simp
+          exact (hs.1 _ hm).2
+
+theorem pendInv_step (key : AnyClaim → η) (s : AState η) (op : Op) (hs : PendInv s) : PendInv (step key s op) := by
+  cases op with
+  | vote o c hp => exact pendInv_vote key s o c hp hs
+  | setPower o p => cases p <;> exact hs
+  | setTotal t => exact hs
+  | setExts xs => exact hs
+  | setLastObserved n => exact hs
+  | setOracleLast o n => cases n <;> exact hs
+  | execute n f => exact pendInv_execute s n f hs
+
+theorem pendInv_run (key : AnyClaim → η) (ops : List Op) (s : AState η) (hs : PendInv s) : PendInv (run key s ops) := by
+  induction ops generalizing s with
+  | nil => exact hs
+  | cons op r ih =>
+    simp only [run, List.foldl_cons]
+    exact ih _ (pendInv_step key s op hs)
+
+omit [DecidableEq η] in
+theorem pendInv_init : PendInv ({} : AState η) := ⟨fun _ h => (by cases h), fun _ h => (by cases h)⟩
 
 theorem mem_claims_of_vote {o : Nat} {c : AnyClaim} {hp : Bool} : ∀ {ops : List Op}, Op.vote o c hp ∈ ops → c ∈ Op.claims ops
   | [], h => by cases h
